@@ -140,6 +140,24 @@ func blnLateRejected(c *vhConfig, topo *vfkit.Topo) *vhConfig {
 	return c
 }
 
+// blnDiscardedBalloonMotif puts two balloon types in front of the generated
+// ones: containers of the common namespaces run in balloons that also use the
+// idle CPUs around them, and containers of prod/dev go to balloons of a fixed
+// small size. A prod/dev container that asks for more than that size makes the
+// policy create a new balloon, find it too small, and discard it again - while
+// the sharing containers have been re-pinned in between. The request fails
+// (or falls through to another type) and must leave the others as they were.
+func blnDiscardedBalloonMotif(t *rapid.T, c *hcCase) {
+	k := rapid.IntRange(1, 2).Draw(t, "fixedCpus")
+	levels := []string{"system", "package", "die", "numa", "l2cache", "core"}
+	defs := []*blncfg.BalloonDef{
+		{Name: "sharer", Namespaces: []string{"default", "kube-system"}, MinCpus: 1, MaxCpus: rapid.SampledFrom([]int{0, 4}).Draw(t, "sharerMax"),
+			ShareIdleCpusInSame: blncfg.CPUTopologyLevel(rapid.SampledFrom(levels).Draw(t, "sharerLevel"))},
+		{Name: "fixed", Namespaces: []string{"prod", "dev"}, MinCpus: k, MaxCpus: k, PreferNewBalloons: rapid.Bool().Draw(t, "fixedPreferNew")},
+	}
+	c.Config.Balloons.BalloonDefs = append(defs, c.Config.Balloons.BalloonDefs...)
+}
+
 func max(a, b int) int {
 	if a > b {
 		return a
